@@ -86,6 +86,10 @@ VALUES = [['0'], ['1', '+', '2'], ['nullptr'], ['N'], ['sizeof', '(', 'int', ')'
 ATTRS = ['[[nodiscard]]', '[[deprecated("x")]]', '__attribute__((unused))', '[[gnu::always_inline]]', 'alignas(8)', '__declspec(dllexport)']
 
 
+def fund_or_name(n):
+    return T.FundamentalSpecifier(name=n) if n in ('int', 'char', 'long', 'bool', 'void', 'double') else T.NameSpecifier(name=n)
+
+
 class Gen:
     def __init__(self, rng, depth=3):
         self.rng = rng
@@ -386,6 +390,18 @@ class Gen:
     def typedef(self, ns):
         rng = self.rng
         self.kinds.add('typedef')
+        if rng.random() < 0.12:
+            # function types written with trailing return types, several declarators in one statement: every declarator is
+            # reported, and the statement goes on behind each of them
+            parts = []
+            for i in range(rng.choice([1, 2, 3])):
+                name = self.fresh('td')
+                pt, rt = rng.choice(['int', 'char', 'Foo']), rng.choice(['long', 'bool', 'Foo'])
+                parts.append('%s(%s) -> %s' % (name, pt, rt))
+                ft = T.FunctionType(return_type=T.Type(typename=T.PQName(segments=[fund_or_name(rt)])),
+                                    parameters=[T.Parameter(type=T.Type(typename=T.PQName(segments=[fund_or_name(pt)])))], has_trailing_return=True)
+                ns.typedefs.append(T.Typedef(type=ft, name=name))
+            return 'typedef auto ' + ', '.join(parts) + ';'
         base = rng.choice(VAR_BASES)
         n = rng.choice([1, 1, 2])
         parts = []
